@@ -58,6 +58,7 @@ struct frame_table {
 inline frame_table g_frames;
 inline std::atomic<long> g_frame_allocs{0}, g_frame_deallocs{0};
 inline std::atomic<char *> g_last_frame{nullptr}; // address of the frame handed out last (single-thread sequences inspect it)
+inline std::atomic<std::size_t> g_last_frame_size{0}; // and the size the coroutine machinery asked for
 
 // wraps a library storage policy: records every frame, forwards to the policy
 template <typename S> struct monitored : S {
@@ -69,6 +70,7 @@ template <typename S> struct monitored : S {
         g_frame_allocs.fetch_add(1, std::memory_order_relaxed);
         g_frames.add((char *)q, n);
         g_last_frame.store((char *)q, std::memory_order_relaxed);
+        g_last_frame_size.store(n, std::memory_order_relaxed);
         return q;
     }
     static void dealloc(void *q, std::size_t n) {
@@ -214,12 +216,19 @@ template <typename St, typename Make> std::string st_no_heap_after_warmup(Make &
 }
 
 // stack_storage: frame on the caller's stack through alloca(); one shared size word
+inline std::atomic<int> g_stack_outside{0}; // frames that were placed (partly) outside the block the caller obtained from alloca()
 template <int N> int st_stack_call(std::size_t &state, c19_ctx &C, int id, bool &used_heap) {
     monitored<cocls::stack_storage> storage(state);
-    storage = alloca(storage);
+    std::size_t offered = storage;          // what the policy asks the caller to put on the stack
+    char *buf = (char *)alloca(offered);
+    storage = buf;
     long n0 = g_heap_news.load();
     cocls::future<int> f = st_body<monitored<cocls::stack_storage>, N>(storage, C, id, nullptr).start();
     used_heap = g_heap_news.load() != n0;
+    if (!used_heap) { // the frame must lie wholly inside the offered block (a frame that is too large for it belongs on the heap)
+        char *fp = g_last_frame.load(std::memory_order_relaxed); std::size_t fs = g_last_frame_size.load(std::memory_order_relaxed);
+        if (fp < buf || fp + fs > buf + offered) g_stack_outside.fetch_add(1, std::memory_order_relaxed);
+    }
     return f.wait();
 }
 
@@ -307,14 +316,17 @@ inline void storage_sequences(const vf::opts &o, vf::report &R, uint64_t seqs) {
             c19_ctx C; bool heap = false; int calls = 3 + (int)r.below(10);
             long fa0 = g_frame_allocs.load(), fd0 = g_frame_deallocs.load(); unsigned e0 = g_frames.errors.load();
             res.desc = "stack_storage state0=" + std::to_string(state) + ": ";
-            int last_class = -1; bool warmed[3] = {false, false, false};
+            int last_class = -1; bool warmed[4] = {false, false, false, false};
+            bool big = r.chance(1, 3); // a third of the sequences also create frames of several kilobytes (page-sized and larger blocks)
+            int out0 = g_stack_outside.load();
             for (int i = 0; i < calls && res.err.empty(); i++) {
-                int sc = (int)r.below(3);
-                int v = sc == 0 ? st_stack_call<2>(state, C, i, heap) : sc == 1 ? st_stack_call<24>(state, C, i, heap) : st_stack_call<90>(state, C, i, heap);
+                int sc = (int)r.below(big ? 4 : 3);
+                int v = sc == 0 ? st_stack_call<2>(state, C, i, heap) : sc == 1 ? st_stack_call<24>(state, C, i, heap) : sc == 2 ? st_stack_call<90>(state, C, i, heap) : (i & 1) ? st_stack_call<760>(state, C, i, heap) : st_stack_call<1300>(state, C, i, heap);
                 res.desc += "call(size" + std::to_string(sc) + (heap ? ",heap) " : ",stack) ");
                 if (v != i) res.err = "coroutine on stack storage returned a wrong value";
                 // once a frame of this size (or larger) went through the heap fallback the shared size word must make the next one fit
-                bool must_fit = false; for (int k = sc; k < 3; k++) must_fit = must_fit || warmed[k];
+                bool must_fit = false; for (int k = sc + (sc == 3 ? 1 : 0); k < 4; k++) must_fit = must_fit || warmed[k]; // class 3 has two sizes: no must-fit claim within it
+                if (res.err.empty() && g_stack_outside.load() != out0) res.err = "stack_storage placed a frame (partly) outside the block it asked the caller to put on the stack";
                 if (res.err.empty() && must_fit && heap) res.err = "stack_storage fell back to the heap although an equal or larger frame was seen before (size word not updated)";
                 warmed[sc] = true; last_class = sc;
             }
